@@ -45,7 +45,7 @@ def make_program(parts):
     take = lambda: next(names)  # noqa: E731
     a, b, c, d, e, f, g, h = (take() for _ in range(8))
     lines = ["def t(k):", "    print('t', k)", "    return k", ""]
-    forms = r.sample(range(14), r.randint(4, 8))
+    forms = r.sample(range(16), r.randint(4, 8))
     out = []
     fresh = r.random() < 0.5  # every form gets names of its own: each name is bound in one way only
     for fi, form in enumerate(forms):
@@ -77,6 +77,17 @@ def make_program(parts):
             out += [f"if ({a} := 4) > 3:", f"    print({a})", f"try:", f"    1 / 0", f"except ZeroDivisionError as {b}:", f"    print(type({b}).__name__)"]
         elif form == 11:
             out += [f"{a}, ({b}, *{c}) = 1, (2, 3, 4)", f"print({a}, {b}, {c})", f"del {a}", f"{a} = 9", f"print({a})"]
+        elif form == 14:  # a parameter of a nested function (every parameter kind) that shadows a variable of the enclosing scope
+            kind = r.choice(["kwonly", "posonly", "vararg", "kwarg", "plain", "default"])
+            sig, call, use = {"kwonly": (f"*, {a}", f"{a}=5", a), "posonly": (f"{a}, /", "5", a), "vararg": (f"*{a}", "5, 6", f"len({a})"), "kwarg": (f"**{a}", "k=5", f"sorted({a})"),
+                              "plain": (a, "5", a), "default": (f"{a}=7", "", a)}[kind]
+            out += [f"def outer_{form}():", f"    {a} = 100", f"    def inner({sig}):", f"        return {use}", f"    return inner({call}), {a}", f"print(outer_{form}())",
+                    f"{b} = 200", f"def shadow_{form}({sig.replace(a, b)}):", f"    return {use.replace(a, b)}", f"print(shadow_{form}({call.replace(a, b)}), {b})"]
+        elif form == 15:  # attributes of classes nested in a class or in a function, reached from outside
+            a, b, c, d = (n if n.strip("_") else "attr" + n.replace("_", "u") for n in (a, b, c, d))  # `_` / `__` are throwaway names, not attributes anyone reads
+            out += [f"class Outer_{form}:", f"    class Meta:", f"        {a} = ('x',)", f"        {b} = 3", f"    {c} = 1",
+                    f"def make_{form}():", f"    class Config:", f"        {d} = 2", f"    return Config",
+                    f"print(Outer_{form}.Meta.{a}, Outer_{form}.Meta.{b}, Outer_{form}.{c}, make_{form}().{d})"]
         elif form == 12:
             out += [f"def {c}(x):", f"    return x + 1", f"def {d}(y):", f"    return y + 1", f"print({c}(1), {d}(2))", f"{e} = {c}", f"print({e}(3))"]
         else:
